@@ -31,8 +31,28 @@ pub fn error_class(e: &complgen::Error) -> String {
     s.split(|c: char| !c.is_alphanumeric()).next().unwrap_or("").to_string()
 }
 
+/// Breadcrumb for aborts that cannot be caught in-process (stack overflow, abort()): before the
+/// real pipeline is entered the input is written to the file named by VERIF_CRUMB; when the
+/// harness process dies by a signal the driver reports that input as the failing one.
+static CRUMB_CTX: std::sync::Mutex<Option<(String, String)>> = std::sync::Mutex::new(None);
+
+/// what the caller expects of the next `compile` (obligation to blame if the process dies, expected outcome)
+pub fn expect_next(obligation: &str, expected: &str) {
+    *CRUMB_CTX.lock().unwrap() = Some((obligation.to_string(), expected.to_string()));
+}
+
+fn crumb(text: &str, shell: &str) {
+    if let Ok(path) = std::env::var("VERIF_CRUMB") {
+        let ctx = CRUMB_CTX.lock().unwrap().take();
+        let (obl, exp) = ctx.unwrap_or_else(|| ("C06.pipeline.no_abort".to_string(), "a script or a diagnostic".to_string()));
+        let j = crate::json::J::obj(vec![("obligation", crate::json::J::s(&obl)), ("expected", crate::json::J::s(&exp)), ("grammar", crate::json::J::s(text)), ("shell", crate::json::J::s(shell))]);
+        let _ = std::fs::write(path, j.to_string());
+    }
+}
+
 /// parse -> validate -> regex -> DFA -> (ambiguity check) -> minimize, as main.rs::aot does.
 pub fn compile(text: &str, shell: &str) -> Result<Compiled, String> {
+    crumb(text, shell);
     let g = RealGrammar::parse(text).map_err(|e| error_class(&e))?;
     let v = ValidGrammar::from_grammar(g, shell_of(shell)).map_err(|e| error_class(&e))?;
     let mut pool = RegexInternPool::default();
